@@ -117,3 +117,26 @@ Theorem C09_fd_bam_sends_one_and_rearms : forall key now nw m k b seg fr seg',
   (s, OTx fr :: os, r).
 Proof. exact fd_bam_sends_one_and_rearms. Qed.
 Print Assumptions C09_fd_bam_sends_one_and_rearms.
+
+From J1939P Require NoOversleep NoOversleep22.
+(* T09.9: after one pass of the transport layer the wake-up time the job thread sleeps until is not later than the deadline of
+   ANY receive or send session still in a table, whatever its state and whatever the pass did — so every deadline
+   (time-out, burst, BAM packet, hold refresh) is served by a pass that starts at most the scheduling latency after it *)
+Theorem C09_job_thread_never_sleeps_past_a_deadline : forall n now,
+  tnodup (n_rcv n) -> tnodup (n_snd n) ->
+  match flat (dll_job n now (fun n' nw' => Done n' nw')) with
+  | (n', _, RDone nw') => nw' <= now + 5000000 /\ n_timers n' = n_timers n /\
+                          NoOversleep.rcv_covered n' nw' /\ NoOversleep.snd_covered n' nw'
+  | (_, _, RRaise _) => True
+  end.
+Proof. exact NoOversleep.dll_job_wakeup_covers_every_deadline. Qed.
+Print Assumptions C09_job_thread_never_sleeps_past_a_deadline.
+
+Theorem C09_fd_job_thread_never_sleeps_past_a_deadline : forall m now,
+  tnodup (f_rcv m) -> tnodup (f_mpg m) -> tnodup (f_snd m) ->
+  match flat22 (dll_job22 m now (fun m' nw' => Done m' nw')) with
+  | (m', _, RDone nw') => nw' <= now + 5000000 /\ NoOversleep22.covered22 m' nw'
+  | (_, _, RRaise _) => True
+  end.
+Proof. exact NoOversleep22.dll_job22_wakeup_covers_every_deadline. Qed.
+Print Assumptions C09_fd_job_thread_never_sleeps_past_a_deadline.
